@@ -122,6 +122,9 @@ def case_spec(draw, algo=None):
         p["exclude"] = draw(st.lists(st.sampled_from(["Security", "HedgeSecurity", "CouponPayingSecurity", "FixedIncomeSecurity"]), min_size=0, max_size=2, unique=True))
         # the docstring asks for lists of types, the defaults are tuples
         p["types_as"] = draw(st.sampled_from(["tuple", "list"]))
+        if draw(st.booleans()):
+            # the strategy also has a sub-strategy with securities of its own: those are the sub-strategy's children, not this strategy's
+            spec["sub_kinds"] = {t: draw(st.sampled_from(["Security", "CouponPayingSecurity", "HedgeSecurity", "FixedIncomeSecurity"])) for t in draw(st.lists(st.sampled_from(uni), min_size=1, max_size=len(uni), unique=True))}
     elif algo == "SelectActive":
         spec["closed"] = draw(st.lists(st.sampled_from(uni), max_size=len(uni), unique=True))
         spec["rolled"] = draw(st.one_of(st.none(), st.lists(st.sampled_from(uni), max_size=len(uni), unique=True)))
@@ -171,9 +174,11 @@ def build(bt, spec):
             children.append(t if k == "lazy" else getattr(bt.core, k)(t))
     elif spec["declared"] is not None:
         children = list(spec["declared"])
+    if spec.get("sub_kinds"):
+        children = (children or []) + [bt.Strategy("zsub", [], children=[getattr(bt.core, k)(t) for t, k in sorted(spec["sub_kinds"].items())])]
     s = bt.Strategy("s", [], children=children)
     add = dict(frames)
-    if spec.get("child_kinds") and any(k == "CouponPayingSecurity" for k in spec["child_kinds"].values()):
+    if (spec.get("child_kinds") and any(k == "CouponPayingSecurity" for k in spec["child_kinds"].values())) or any(k == "CouponPayingSecurity" for k in (spec.get("sub_kinds") or {}).values()):
         add["coupons"] = data * 0.0
     b = bt.Backtest(s, data, additional_data=add or None, progress_bar=False)
     strat = b.strategy
@@ -200,7 +205,7 @@ def case_select(ctx, spec):
     tickers = sorted(pr)
     uni = [t for t in tickers if spec["declared"] is None or t in spec["declared"]]
     ucols = list(strat.universe.columns)
-    if sorted(ucols) != sorted(uni):
+    if sorted(ucols) != sorted(uni + (["zsub"] if spec.get("sub_kinds") else [])):
         raise Violation("universe columns %s != declared tickers %s" % (ucols, uni), signature="universe-scope")
     row = {t: pr[t][i] for t in uni}
     strat.temp = {}
@@ -402,6 +407,11 @@ def case_select(ctx, spec):
             if kinds & set(p["include"]) and not (kinds & set(p["exclude"])):
                 if prior is None or t in prior:
                     exp.append(t)
+        if spec.get("sub_kinds") and prior is None and {"Node", "StrategyBase"} & set(p["include"]):
+            exp.append("zsub")  # the sub-strategy is a child (a node, a strategy); what it holds is not
+            labs.append("nested_substrategy_child")
+        elif spec.get("sub_kinds"):
+            labs.append("nested_substrategy_child")
         expect_set(exp)
         kept, filtered_out = len(exp), len(spec["child_kinds"]) - len(exp)
     elif algo_name == "SelectActive":
@@ -512,6 +522,11 @@ def active_run_spec(draw):
         cd[tickers[0]] = ds[draw(st.integers(1, n - 1))][:10]
     sig = {t: [draw(st.booleans()) for _ in range(n)] for t in tickers}
     names = sorted(cd)
+    # some of the others roll into a later name on a date of their own (on-the-run switches): rolled names are inactive as well
+    rolls = {}
+    for t in tickers[:-1]:
+        if t not in cd and draw(st.integers(0, 2)) == 0:
+            rolls[t] = {"date": ds[draw(st.integers(1, n - 1))][:10], "target": tickers[-1], "factor": 1.0}
     spec = {
         "dates": ds,
         "prices": pr,
@@ -522,15 +537,20 @@ def active_run_spec(draw):
         "initial_capital": 1e6,
         "fee": {"kind": "none"},
         "close_dates": cd,
+        "roll_dates": {t: r["date"] for t, r in rolls.items()},
         "signal": sig,
         "tree": {
             "name": "root",
             "kind": "Strategy",
-            "algos": [["ClosePositionsAfterDates", {"frame": "closes"}], ["SelectWhere", {"frame": "sig"}], ["SelectActive", {}], ["Probe", {"key": "c14active"}], ["WeighEqually", {}], ["Rebalance", {}]],
+            "algos": [["ClosePositionsAfterDates", {"frame": "closes"}]] + ([["RollPositionsAfterDates", {"frame": "rolls"}]] if rolls else []) + [["SelectWhere", {"frame": "sig"}], ["SelectActive", {}], ["Probe", {"key": "c14active"}], ["WeighEqually", {}], ["Rebalance", {}]],
             # constructed up front, or named by a string and created on first use: the same thing
             "children": [{"sec": t, "kind": "Security"} for t in tickers] if draw(st.booleans()) else list(tickers),
         },
     }
+    if rolls:
+        rn = sorted(rolls)
+        spec["frames"]["rolls"] = {"kind": "table", "index": rn, "cols": {"date": [rolls[t]["date"] for t in rn], "target": [rolls[t]["target"] for t in rn], "factor": [rolls[t]["factor"] for t in rn]}, "date_cols": ["date"]}
+        spec["additional"].append("rolls")
     return spec
 
 
@@ -547,7 +567,7 @@ def case_active_run(ctx, spec):
             seen.append((target.now, list(target.temp.get("selected", [])), {c: ch.position for c, ch in target.children.items()}))
 
     interp.Probe.registry["c14active"] = cb
-    base = {k: v for k, v in spec.items() if k not in ("close_dates", "signal")}
+    base = {k: v for k, v in spec.items() if k not in ("close_dates", "signal", "roll_dates")}
     try:
         b = interp.mk_backtest(bt, base)
         holder["root"] = b.strategy
@@ -560,6 +580,7 @@ def case_active_run(ctx, spec):
         interp.Probe.registry.pop("c14active", None)
     ds = [pd.Timestamp(d) for d in spec["dates"]]
     cd = {t: pd.Timestamp(d) for t, d in spec["close_dates"].items()}
+    cd.update({t: pd.Timestamp(d) for t, d in (spec.get("roll_dates") or {}).items()})  # inactive from that date on, like a matured name
     flat_at_maturity = False
     kept = dropped = 0
     for now, selected, pos in seen:
@@ -582,7 +603,7 @@ def case_active_run(ctx, spec):
             for now, selected, pos in seen:
                 if now == ds[first[0]] and abs(pos.get(t, 0.0)) == 0:
                     flat_at_maturity = True
-    return {"nontrivial": kept > 0 and dropped > 0, "labels": ["SelectActiveRun"] + (["flat_at_maturity_wanted_later"] if flat_at_maturity and dropped else [])}
+    return {"nontrivial": kept > 0 and dropped > 0, "labels": ["SelectActiveRun"] + (["flat_at_maturity_wanted_later"] if flat_at_maturity and dropped else []) + (["with_rolls"] if spec.get("roll_dates") else [])}
 
 
 SUBS = {"select": case_select}
